@@ -3,6 +3,8 @@ import Casket.Proofs.AutoHTTPSRedirect
 import Casket.Proofs.AutoHTTPSSites
 import Casket.Proofs.AutoHTTPSAddr
 import Casket.Proofs.AutoHTTPSInspect
+import Casket.Proofs.AutoHTTPSAddrIP
+import Casket.Proofs.AutoHTTPSSame
 /-
 C15 — Automatic HTTPS is applied exactly to qualifying sites, with redirects.
 
@@ -345,5 +347,64 @@ theorem C15_key_ipv6_drops_port_witness :
     (normalizedAddrs [b!"[::1]:81", b!"[::1]:82"]).map Address.key = [b!"::1", b!"::1"] ∧
     (normalizedAddrs [b!"[::1]:81", b!"[::1]:82"]).map (·.port) = [b!"81", b!"82"] ∧
     (match inspect [b!"[::1]:81", b!"[::1]:82"] with | .error .dupKey => true | _ => false) = true := by decide
+
+/-! ### IP-literal hosts, Address.String, and "duplicate ⇔ same site" -/
+
+/-- An IPv4 literal is its own canonical text: whatever net.ParseIP accepts in dotted form is what IP.String prints (Go refuses
+leading zeros), so Normalize leaves every host written with name bytes — names and IPv4 literals alike — unchanged up to case. -/
+theorem C15_ipv4_literal_canonical (h : Bytes) (hn : h.all nameByte = true) : canonHost h = h := canonHost_name h hn
+
+example : canonHost b!"10.0.0.1" = b!"10.0.0.1" ∧ (parseIP b!"10.0.0.1").isSome = true ∧ parseIP b!"010.0.0.1" = none ∧
+    canonHost b!"[::1]" = b!"[::1]" ∧ canonHost b!"0:0::1" = b!"::1" := by decide
+
+/-- `C15_spec_reader_agrees`, `C15_vhost_without_scheme`, `C15_key_formula` and `C15_key_roundtrip` without the "not an IP literal"
+hypothesis: they hold for EVERY well-formed `[scheme://]host[:port]`, IPv4-literal hosts included. -/
+theorem C15_address_theorems_all_hosts (a : AddrParts) (hok : a.ok) (r : Address) (h : standardizeAddress (composeAddr a) = .ok r) :
+    (r.normalize.scheme, r.normalize.host, r.normalize.port) = readAddr (composeAddr a) ∧
+    r.normalize.vhost = a.host ++ portPart a ∧
+    r.normalize.key = expectedKey a ∧
+    (∃ r', standardizeAddress r.normalize.key = .ok r' ∧ r'.normalize.scheme = r.normalize.scheme ∧
+      r'.normalize.host = r.normalize.host ∧ r'.normalize.port = r.normalize.port ∧ r'.normalize.key = r.normalize.key) :=
+  ⟨reader_agrees_all a hok r h, vhost_compose_all a hok r h, key_compose_all a hok r h, key_roundtrip_all a hok r h⟩
+
+example : AddrParts.ok { scheme := b!"https", host := b!"10.0.0.1", port := some b!"8443" } := by
+  refine ⟨by decide, by decide, ?_⟩
+  intro p hp; cases hp; exact ⟨by decide, by decide⟩
+
+/-- Address.String of the normalised address with the default port filled in — the text InspectServerBlocks books a site under —
+is the address text of the EFFECTIVE site: scheme http unless https is written or implied by port 443, lower-cased host,
+port (2015 if none) written unless it is the scheme's default. -/
+theorem C15_site_string_formula (a : AddrParts) (hok : a.ok) (hstd : a.stdScheme) (r : Address)
+    (h : standardizeAddress (composeAddr a) = .ok r) : r.normalize.siteString = composeAddr (effectiveParts a) :=
+  siteString_compose a hok hstd r h
+
+/-- ROUND TRIP through Address.String: standardizeAddress applied to the site string gives the effective site back, and the site
+string of that is the same text again (so on the image of standardizeAddress with explicit scheme and port it is the identity). -/
+theorem C15_site_string_roundtrip (a : AddrParts) (hok : a.ok) (hstd : a.stdScheme) (r : Address)
+    (h : standardizeAddress (composeAddr a) = .ok r) :
+    standardizeAddress r.normalize.siteString = .ok (effectiveAddr a) ∧
+    (effectiveAddr a).normalize.siteString = r.normalize.siteString :=
+  siteString_roundtrip a hok hstd r h
+
+example : effective { host := b!"Example.COM" } = (b!"http", b!"example.com", b!"2015") ∧
+    effective { host := b!"example.com", port := some b!"443" } = (b!"https", b!"example.com", b!"443") ∧
+    composeAddr (effectiveParts { scheme := b!"HTTP", host := b!"example.com", port := some b!"80" }) = b!"http://example.com" := by decide
+
+/-- DUPLICATE ⇔ SAME SITE: two well-formed addresses (scheme none/http/https, name or IPv4-literal host, optional numeric port)
+clash in InspectServerBlocks — same normalised key or same site string — exactly when they denote the same effective site. -/
+theorem C15_clash_iff_same_site (a b : AddrParts) (hoa : a.ok) (hob : b.ok) (hsa : a.stdScheme) (hsb : b.stdScheme)
+    (ra rb : Address) (ha : standardizeAddress (composeAddr a) = .ok ra) (hb : standardizeAddress (composeAddr b) = .ok rb) :
+    (ra.normalize.key = rb.normalize.key ∨ ra.normalize.siteString = rb.normalize.siteString) ↔ effective a = effective b :=
+  clash_iff_same_site a b hoa hob hsa hsb ra rb ha hb
+
+/-- …hence two such addresses are accepted together by InspectServerBlocks exactly when they denote different sites… -/
+theorem C15_inspect_pair_iff (a b : AddrParts) (hoa : a.ok) (hob : b.ok) (hsa : a.stdScheme) (hsb : b.stdScheme)
+    (ra rb : Address) (ha : standardizeAddress (composeAddr a) = .ok ra) (hb : standardizeAddress (composeAddr b) = .ok rb) :
+    (∃ as, inspect [composeAddr a, composeAddr b] = .ok as) ↔ effective a ≠ effective b :=
+  inspect_pair a b hoa hob hsa hsb ra rb ha hb
+
+/-- …and the effective site is what the judge of stream c15.inspect reads from the text (`denotes`). -/
+theorem C15_denotes_is_effective (a : AddrParts) (hok : a.ok) :
+    denotes (composeAddr a) = ((effective a).1, (effective a).2.1, (effective a).2.2, []) := denotes_compose a hok
 
 end Casket.Props.C15
